@@ -47,10 +47,14 @@ Proof. exact oob_then_answer. Qed.
 Print Assumptions C07_answers.
 
 (* The tree of a caller that awaits a Monitor call runs exactly as call_run / call_resume
-   say (all bodies, all continuations of the caller, all stores). *)
+   say (all bodies, all continuations of the caller, all stores); [bound_resume true] =
+   call_resume, except that a GeneratorExit thrown into the caller from outside at a real
+   suspension always comes back as GeneratorExit (or the error of the close), never as a
+   return value (PEP 380: the caller's own await re-raises it). *)
 Theorem C07_caller_tree : forall m o cl s kont,
   run s (call_k m o cl kont) = run_of_call m cl kont (call_run m s o cl)
-  /\ forall k i, run s (call_cont m cl k kont i) = run_of_call m cl kont (call_resume m cl s k i).
+  /\ forall k i, run s (call_cont m cl k kont i)
+                 = run_of_call m cl kont (bound_resume true m cl s k i).
 Proof. intros; split; [apply call_k_run | intros; apply call_cont_run]. Qed.
 Print Assumptions C07_caller_tree.
 
@@ -82,22 +86,22 @@ Print Assumptions C07_idle_after.
    an oob of A passes through B untouched (B stays active, the answer will be forwarded to
    the oob through B's relay) and ends A's call with OOBData d; an oob of B is consumed by B
    (A only sees what B's driver does next); a real suspension passes through both. *)
-Theorem C07_nested : forall A B fa fb s kontB, A <> B -> mstate s B = 1 ->
+Theorem C07_nested : forall A B fa fb s kontB kcB, A <> B -> mstate s B = 1 ->
   (forall d k, mstate s A = 1 ->
-     relay_run A fa s (relay_k B fb (emb (TOob A d k)) kontB) =
+     relay_run A fa s (relay_k B fb (emb (TOob A d k)) kontB kcB) =
      ([], setcell (setcell (setcell s A (-1)) A 1) A 0,
-      MEnd (Suspended (relay_cont B (kemb k) kontB)) (RExc (OOBData d))))
+      MEnd (Suspended (relay_cont B (kemb k) kontB kcB)) (RExc (OOBData d))))
   /\ (forall d k,
-     relay_run A fa s (relay_k B fb (emb (TOob B d k)) kontB) =
+     relay_run A fa s (relay_k B fb (emb (TOob B d k)) kontB kcB) =
      relay_run A fa (setcell (setcell (setcell s B (-1)) B 1) B 0)
                (kontB (Suspended (kemb k)) (RExc (OOBData d))))
   /\ (forall y k, mstate s A = 1 ->
-     relay_run A fa s (relay_k B fb (emb (TSusp y k)) kontB) =
-     ([], s, MSusp y (relay_cont B (kemb k) kontB)))
+     relay_run A fa s (relay_k B fb (emb (TSusp y k)) kontB kcB) =
+     ([], s, MSusp y (relay_cont B (kemb k) kontB kcB)))
   /\ (forall k i, i <> Throw GeneratorExit ->
-     relay_cont B (kemb k) kontB i = relay_k B false (emb (k i)) kontB).
+     relay_cont B (kemb k) kontB kcB i = relay_k B false (emb (k i)) kontB kcB).
 Proof.
-  intros A B fa fb s kontB Hne HB. repeat split; intros.
+  intros A B fa fb s kontB kcB Hne HB. repeat split; intros.
   - apply nested_outer_oob; assumption.
   - apply nested_inner_oob; assumption.
   - apply nested_real; assumption.
